@@ -157,7 +157,11 @@ def cx_configs(tier):
     if tier == "quick":
         return [build.Cfg("g++", "20", "O0", extra=lim_g), build.Cfg("clang++", "20", "O0", extra=lim_c)]
     return [build.Cfg("g++", "20", "O0", extra=lim_g), build.Cfg("g++", "23", "plain", extra=lim_g),
-            build.Cfg("clang++", "20", "O0", extra=lim_c), build.Cfg("clang++", "23", "plain", extra=lim_c),
+            build.Cfg("clang++", "20", "O0", extra=lim_c),
+            # clang 14 / c++2b: the build layer normally switches std::is_constant_evaluated() off (DESIGN 2.1), and with it
+            # what sbepp needs for a constexpr assign_string(const char*); this leg is about constant evaluation, so the
+            # feature stays on here (the branches it guards are valid at run time too) -- same correction as in C14
+            build.Cfg("clang++", "23", "plain", defs=("SBEPP_HAS_IS_CONSTANT_EVALUATED=1",), extra=lim_c),
             build.Cfg("g++", "20", "O0", defs=("SBEPP_HAS_BITCAST=0",), extra=lim_g)]
 
 
